@@ -3170,6 +3170,14 @@ static int match_address (hawk_sed_t* sed, hawk_sed_cmd_t* cmd)
 				 * line number. */
 				cmd->state.c_ready = 1;
 			}
+			else if (cmd->a2.type == HAWK_SED_ADR_DOL &&
+			         (n = match_a(sed, cmd, &cmd->a2)) != 0)
+			{
+				/* likewise, the range begins on the last line
+				 * and '$' is that very line. */
+				if (n <= -1) return -1;
+				cmd->state.c_ready = 1;
+			}
 			else
 			{
 				/* mark that the first is matched so as to
